@@ -54,6 +54,11 @@ static int parse_redirect(reproc_redirect *redirect,
     redirect->type = REPROC_REDIRECT_PATH;
   }
 
+  if (redirect->type == REPROC_REDIRECT_STDOUT) {
+    // Only stderr can be redirected to the stdout of the child process.
+    ASSERT_EINVAL(stream == REPROC_STREAM_ERR);
+  }
+
   if (redirect->type == REPROC_REDIRECT_DEFAULT) {
     if (parent) {
       ASSERT_EINVAL(!discard);
